@@ -20,6 +20,7 @@ EXPLANATION = (
     'the command-level limiter\'s wrapper around the raw stream exactly when a limit is set), who-may-construct rule for the limiter (once per command, outside '
     'loops and per-transfer functions), shape of the transfer chunk size in limited mode (max(L // (k*N), 1), k >= 4), lock-set rule for the two debt fields and the '
     'sleep, and statelessness / single unconditional pause / delegation shape of the file wrapper. Rules C20.R1-R5.'
+    ' Added with the seeded-defect rounds: the transfer unit is divided by the concurrency, PAUSE_LIMIT >= threshold + 1/k, adapters move streams in pieces of chunk_size, debt fields addressed by attribute path.'
 )
 NOT_DECIDED = 'the bound bytes(window T) <= L*T + burst itself (arithmetic over timestamps and schedules)'
 TRUSTED = ['time.sleep / perf_counter', 'threading.Lock', 'CPython ast']
